@@ -128,6 +128,12 @@ void reb_integrator_part2(struct reb_simulation* r){
 			break;
 	}
     
+    // The N-body ODE of a previously used BS integrator must not be integrated alongside another integrator.
+    if (r->integrator != REB_INTEGRATOR_BS && r->ri_bs.nbody_ode){
+        reb_ode_free(r->ri_bs.nbody_ode);
+        r->ri_bs.nbody_ode = NULL;
+    }
+
     // Integrate other ODEs
     if (r->integrator != REB_INTEGRATOR_BS && r->N_odes){
         if (r->ode_warnings==0 && (!r->ri_whfast.safe_mode || !r->ri_saba.safe_mode || !r->ri_eos.safe_mode || !r->ri_mercurius.safe_mode)){
